@@ -475,6 +475,8 @@ pub fn run(cases: &[Value], seed: u64) -> Value {
             violations.push(json!({"kind": "rt", "violation": {"case": case, "message": m}, "case_seed": s, "case_index": i, "cfg": cfg_json(c)}));
         }
     };
+    let quick = vcommon::util::tier_quick();
+    let (every, nfault, nlimit) = if quick { (5usize, 4usize, 2usize) } else { (2, 8, 4) };
     for (i, case) in cases.iter().enumerate() {
         let s = seed.wrapping_mul(7_777_777).wrapping_add(i as u64);
         let mut rng = StdRng::seed_from_u64(s ^ 0x5eed);
@@ -493,8 +495,8 @@ pub fn run(cases: &[Value], seed: u64) -> Value {
                     samples.push(json!({"case": case, "cfg": cfg_json(&c0), "observed": {"op_results": o.op_results, "file_bytes": o.final_bytes, "os_write_calls": o.write_calls, "batches_read": o.batches_read, "rows_read": o.rows}}));
                 }
                 // fault at every OS write call of this history (sampled), and a limit below every cumulative size
-                if o.write_calls > 0 && i % 3 == 0 {
-                    let ks: Vec<i64> = if o.write_calls <= 6 { (1..=o.write_calls as i64).collect() } else { (0..6).map(|_| rng.random_range(1..=o.write_calls as i64)).collect() };
+                if o.write_calls > 0 && i % every == 0 {
+                    let ks: Vec<i64> = if o.write_calls as usize <= nfault { (1..=o.write_calls as i64).collect() } else { (0..nfault).map(|_| rng.random_range(1..=o.write_calls as i64)).collect() };
                     for k in ks {
                         let c = Cfg { fault_at: k, ..c0.clone() };
                         match guarded(case, s, i, &c) {
@@ -514,7 +516,7 @@ pub fn run(cases: &[Value], seed: u64) -> Value {
                     cb.push(o.final_bytes);
                     cb.sort();
                     cb.dedup();
-                    for b in cb.into_iter().filter(|b| *b > 1).take(4) {
+                    for b in cb.into_iter().filter(|b| *b > 1).take(nlimit) {
                         let c = Cfg { limit: b - 1, ..c0.clone() };
                         match guarded(case, s, i, &c) {
                             Ok(_) => limits += 1,
